@@ -18,6 +18,7 @@ import (
 	"bytes"
 	"fmt"
 	"math"
+	"sort"
 	"strings"
 
 	"github.com/go-enry/go-enry/v2"
@@ -218,11 +219,8 @@ func (p *contentProvider) scoreLineBM25(ms []*candidateMatch, lineNumber int) (f
 	lineLength := nl.lineStart(lineNumber+1) - nl.lineStart(lineNumber)
 	L := float64(lineLength) / 100.0
 
-	score := 0.0
 	tfs := p.calculateTermFrequency(ms, false) // ignore file priority, since we're just scoring within a single file
-	for _, f := range tfs {
-		score += tfScore(k, b, L, f)
-	}
+	score, _ := sumTFScores(k, b, L, tfs)
 
 	// Check if any index comes from a symbol match tree, and if so hydrate in symbol information
 	var symbolInfo []*zoekt.Symbol
@@ -248,6 +246,23 @@ func tfScore(k float64, b float64, L float64, f int) float64 {
 
 const importantTermBoost = 5
 const lowPriorityFilePenalty = 5
+
+// sumTFScores adds up the BM25 score of every term and the term frequencies.
+// The terms are visited in the order of their frequency: float addition is not
+// associative, and in map order the same search could score the same file
+// differently from one run to the next.
+func sumTFScores(k, b, L float64, tf map[string]int) (score float64, sumTF int) {
+	freqs := make([]int, 0, len(tf))
+	for _, f := range tf {
+		freqs = append(freqs, f)
+	}
+	sort.Ints(freqs)
+	for _, f := range freqs {
+		sumTF += f
+		score += tfScore(k, b, L, f)
+	}
+	return score, sumTF
+}
 
 // calculateTermFrequency computes the term frequency for the file match.
 // Notes:
@@ -379,12 +394,7 @@ func (d *indexData) scoreFileBM25(fileMatch *zoekt.FileMatch, doc uint32, cands 
 
 	L := fileLength / averageFileLength
 
-	bm25Score := 0.0
-	sumTF := 0 // Just for debugging
-	for _, f := range tf {
-		sumTF += f
-		bm25Score += tfScore(k, b, L, f)
-	}
+	bm25Score, sumTF := sumTFScores(k, b, L, tf) // sumTF is just for debugging
 
 	score := boostScore(bm25Score, cands)
 	boosted := score != bm25Score
